@@ -10,6 +10,7 @@ import NumqiProofs.Catalogue
 import NumqiProofs.CatalogueExplicit
 import NumqiProofs.CatalogueKets
 import NumqiProofs.CataloguePovm
+import NumqiProofs.CatalogueUpb
 import Mathlib.Analysis.SpecialFunctions.Trigonometric.Basic
 
 set_option linter.unusedSectionVars false
@@ -424,6 +425,37 @@ theorem upb_feng2x2x2x2_orthonormal : upbTableOrthonormal upbFeng2x2x2x2 = true 
 example : upbTableOrthonormal
     [ upbTiles.headD [], [ [sa 1 1 2, sa (-1) 1 2, s0], [s0, s0, s1], [s0, sa 1 1 2, sa 1 1 2], [s1, s0, s0], [sa 1 1 3, sa 1 1 3, sa 1 1 3] ] ] = false := by
   decide +kernel
+
+/-! ## UPB → bound entangled state: the complement projector (`upb_to_bes`), for every orthonormal set of product vectors
+
+`w a` is the `a`-th product vector (`a < m`) in dimension `D`; `Orthonormal m D w` says `⟨w_a|w_b⟩ = δ_ab`;
+`upbCompl m w = 1 - Σ_a |w_a⟩⟨w_a|` is what `upb_to_bes` computes before dividing by the trace; `hform D M x = x† M x`. -/
+
+/-- **the complement of an orthonormal set is a Hermitian projector of trace `D - |UPB|`, hence positive semidefinite** -/
+theorem upb_bes_projector (m D : ℕ) (w : ℕ → ℕ → ℂ) (h : Orthonormal m D w) :
+    (∀ r < D, ∀ c < D, ∑ y ∈ Finset.range D, upbCompl m w r y * upbCompl m w y c = upbCompl m w r c)
+    ∧ (∀ r c, starRingEnd ℂ (upbCompl m w r c) = upbCompl m w c r)
+    ∧ ∑ r ∈ Finset.range D, upbCompl m w r r = (D : ℂ) - (m : ℂ)
+    ∧ ∀ x : ℕ → ℂ, 0 ≤ (hform D (upbCompl m w) x).re ∧ (hform D (upbCompl m w) x).im = 0 :=
+  ⟨fun r hr c hc => upbCompl_idem m D w h r c hr hc, upbCompl_conj m w, upbCompl_trace m D w h,
+   hform_nonneg_of_idem D _ (fun r hr c hc => upbCompl_idem m D w h r c hr hc) (upbCompl_conj m w)⟩
+
+/-- **… and it is PPT when the vectors are product vectors** `w_a = u_a ⊗ v_a` across the cut `dA × dB`: the partial
+transpose is the complement projector of the orthonormal set `u_a ⊗ v̄_a`. (Unextendibility — which makes the state
+*entangled* — is literature and not part of this statement.) -/
+theorem upb_bes_ppt (m dA dB : ℕ) (hB : 0 < dB) (u v : ℕ → ℕ → ℂ)
+    (h : Orthonormal m (dA * dB) (prodVec dB u v)) (x : ℕ → ℂ) :
+    0 ≤ (hform (dA * dB) (ptB dB (upbCompl m (prodVec dB u v))) x).re
+      ∧ (hform (dA * dB) (ptB dB (upbCompl m (prodVec dB u v))) x).im = 0 := by
+  have e : ptB dB (upbCompl m (prodVec dB u v)) = upbCompl m (prodVec dB u (fun a t => starRingEnd ℂ (v a t))) :=
+    funext fun r => funext fun c => ptB_upbCompl m dB hB u v r c
+  rw [e]
+  exact (upb_bes_projector m (dA * dB) _ (orthonormal_conj_right m dA dB hB u v h)).2.2.2 x
+
+/-- non-vacuity: two orthonormal product vectors `|0⟩|0⟩`, `|1⟩|1⟩` in `2 × 2` -/
+example : Orthonormal 2 (2 * 2) (prodVec 2 (fun a i => if a = i then (1 : ℂ) else 0) (fun a j => if a = j then (1 : ℂ) else 0)) := by
+  intro a ha b hb
+  interval_cases a <;> interval_cases b <;> simp [Catalogue.inner, prodVec, Finset.sum_range_succ]
 
 /-! ## Chebyshev bases -/
 
